@@ -21,8 +21,11 @@
 
     [EngineInvM.Inv] implies [EngineWf.wfb] ([C05_memo_invariant_implies_wfb]), so the graph is
     structurally consistent at every boundary of a clean history with memoized binds
-    ([C05_memo_wf_every_boundary]); both stabilizers are covered.  Not redone in this variant:
-    crash-freedom (C05.v, [C05_no_crash_*]) and the C08 history theorems (C08_history.v). *)
+    ([C05_memo_wf_every_boundary]); both stabilizers are covered.  The variant also carries
+    crash-freedom ([C05_memo_no_crash_step], [C05_memo_no_crash]; ParallelStabilize excepted as in
+    C05.v, [C05_memo_par_crash_refuted]) and the C08 history theorems
+    ([C08_memo_never_runs_after_invalidation], [C08_memo_swap_invalidates_old_generation] for
+    plain binds; for memoized binds see Properties/C09_memo.v). *)
 From incr Require Import Base Heap HeapSpec EngineDefs Engine EngineWf EngineLemmas EngineInvM EngineInvMProofs.
 
 Theorem C05_memo_init : forall mh, (0 < mh)%nat -> Inv (init mh).
@@ -103,6 +106,53 @@ Print Assumptions C10_memo_registered_iff_last_necessary.
 Theorem C10_memo_invalidated_iff_invalid : forall s n, Inv s -> (EvInval n ∈ log s <-> valid (nd s n) = false).
 Proof. exact invalidated_iff_invalid. Qed.
 Print Assumptions C10_memo_invalidated_iff_invalid.
+
+(** no fault: a well-formed clean operation other than ParallelStabilize never crashes, memoized
+    binds and the memo operations included, also when it is rejected half-way *)
+Theorem C05_memo_no_crash_step : forall s o,
+  Inv s -> op_ok s o = true -> op_clean s o = true -> is_parstabilize o = false ->
+  forall c, step s o <> Crash c.
+Proof. exact nc_step. Qed.
+Print Assumptions C05_memo_no_crash_step.
+
+Theorem C05_memo_no_crash : forall mh os s o,
+  (0 < mh)%nat -> run_clean (init mh) os = Some s ->
+  op_ok s o = true -> op_clean s o = true -> is_parstabilize o = false ->
+  forall c, step s o <> Crash c.
+Proof. exact run_no_crash. Qed.
+Print Assumptions C05_memo_no_crash.
+
+Theorem C05_memo_bind_recompute_no_crash : forall fuel p s b,
+  PInv s -> plan_ok s p = true -> nkind (nd s b) = KBindLhs b -> inGraph (nd s b) = true ->
+  forall c, bindLhsStabilize fuel p s b <> Crash c.
+Proof. exact nc_bind. Qed.
+Print Assumptions C05_memo_bind_recompute_no_crash.
+
+Theorem C05_memo_par_crash_refuted : exists os s,
+  run_clean (init 8) os = Some s /\ op_ok s (ParStabilize []) = true /\ op_clean s (ParStabilize []) = true /\
+  step s (ParStabilize []) = Crash NilDeref.
+Proof. exact par_crash_refuted. Qed.
+Print Assumptions C05_memo_par_crash_refuted.
+
+(** C08 over histories with memoized binds: nothing runs after its invalidation; the swap of a
+    PLAIN bind invalidates the whole old generation (a memoized bind has no generation of its own:
+    its right-hand sides are top-level nodes and are never invalidated, Properties/C09_memo.v) *)
+Theorem C08_memo_never_runs_after_invalidation : forall mh os s l_after e l_before n,
+  (0 < mh)%nat -> run_clean (init mh) os = Some s ->
+  log s = l_after ++ e :: l_before -> ev_runs e = Some n -> EvInval n ∉ l_before.
+Proof. exact history_never_runs_after_invalidation. Qed.
+Print Assumptions C08_memo_never_runs_after_invalidation.
+
+Theorem C08_memo_swap_invalidates_old_generation : forall fuel p s b s',
+  PInv s -> plan_ok s p = true -> nkind (nd s b) = KBindLhs b -> inGraph (nd s b) = true ->
+  b_memo (bd s b) = false ->
+  bindLhsStabilize fuel p s b = Ok (s', None) ->
+  exists x root l1 l2,
+    log s' = l2 ++ EvBindFn b x root :: l1 ++ log s /\
+    Forall (fun ev => ev_runs ev = None) l1 /\ Forall (fun ev => ev_runs ev = None) l2 /\
+    (b_rhs (bd s b) <> None -> forall n, n ∈ b_rhsNodes (bd s b) -> EvInval n ∈ l2).
+Proof. exact swap_log. Qed.
+Print Assumptions C08_memo_swap_invalidates_old_generation.
 
 (** non-vacuity: a clean history with a memoized bind — cache misses, a cache hit, a purge, a
     clear, both stabilizers — runs to a well-formed state; the bind function ran 4 times in 5
